@@ -64,6 +64,7 @@ Expected(ev) ==
       [] ev.op = "Cmp"      -> Cmp(ev.c, regs[ev.x], regs[ev.y])
       [] ev.op = "Pow"      -> Pow(regs[ev.x], ev.n, mode)
       [] ev.op = "Quantize" -> Quantize(regs[ev.x], regs[ev.y], ev.rm, mode)
+      [] ev.op = "Sum"      -> SumQ([j \in DOMAIN ev.rs |-> regs[ev.rs[j]]], mode)
 
 \* judgement of one event: "ok" | "bad" | "oor"
 Judge(ev) ==
@@ -77,6 +78,9 @@ Judge(ev) ==
             IN  IF ~ev.shape THEN "bad"
                 ELSE IF ~AllocInRange(q, rs, ps, rm) THEN "oor"
                 ELSE IF AllocOK(q, rs, ev.disp, mode, ps, rm) THEN "ok" ELSE "bad"
+      [] ev.op = "Sort" ->
+            IF ev.exc # "" THEN "bad"
+            ELSE SortJudge([j \in DOMAIN ev.rs |-> regs[ev.rs[j]]], ev.perm)
       [] ev.op = "HashEq" ->
             \* equality must agree with the abstract key, and equal => same hash
             LET x == regs[ev.x]  y == regs[ev.y]
@@ -88,10 +92,10 @@ Judge(ev) ==
 
 NewReg(ev) ==
     CASE ev.op = "Lit" -> Expected(ev)
-      [] ev.op \in {"Cmp", "Alloc", "HashEq"} -> EmptyV
+      [] ev.op \in {"Cmp", "Alloc", "HashEq", "Sort"} -> EmptyV
       [] OTHER -> IF ev.res.k \in {"q", "n"} THEN ObsVal(ev.res) ELSE EmptyV
 
-HasDest(ev) == ev.op \notin {"Cmp", "Alloc", "HashEq", "Reset", "SetMode"}
+HasDest(ev) == ev.op \notin {"Cmp", "Alloc", "HashEq", "Sort", "Reset", "SetMode"}
 
 Init == i = 1 /\ regs = [r \in 1..K |-> EmptyV] /\ mode = "ROUND_HALF_EVEN" /\ live = TRUE
 
@@ -105,7 +109,7 @@ Step ==
        ELSE IF ev.op = "SetMode" THEN mode' = ev.m /\ UNCHANGED <<regs, live>>
        ELSE LET j == Judge(ev) IN
             /\ IF j = "ok" THEN TRUE
-               ELSE PrintT(<<"QV", j, ev.id, IF ev.op \in {"Round", "Alloc", "HashEq", "Lit"}
+               ELSE PrintT(<<"QV", j, ev.id, IF ev.op \in {"Round", "Alloc", "HashEq", "Lit", "Sort"}
                                              THEN EmptyV ELSE Expected(ev)>>)
             /\ live' = (j = "ok")
             /\ mode' = mode
